@@ -371,7 +371,12 @@ def tz_model(ctx, rule):
                 cnt = ev(e.args[3], env, depth + 1) if len(e.args) == 4 else 0
                 for k in e.keywords:
                     cnt = ev(k.value, env, depth + 1)
-                return regex.sub(a, b, x, count=cnt)
+                try:
+                    return regex.sub(a, b, x, count=cnt)
+                except regex.error as ex_:
+                    # the real generator raises the same error at this point of a rebuild (the template is expanded when the pattern matches)
+                    build_errors.append((e.lineno, "re.sub(%r, %r, %r): %s" % (a, b, x, ex_)))
+                    return x
             if fn == "re.compile" and 1 <= len(e.args) <= 2:
                 fl = ev(e.args[1], env, depth + 1) if len(e.args) == 2 else None
                 for k in e.keywords:
@@ -417,6 +422,7 @@ def tz_model(ctx, rule):
 
     entries, parts = [], []
     mutations = []
+    build_errors = []
 
     def run(stmts, env):
         for st in stmts:
@@ -469,6 +475,7 @@ def tz_model(ctx, rule):
         if m_ not in seen_m:
             seen_m.append(m_)
     ctx.tz_mutations = seen_m
+    ctx.tz_build_errors = build_errors[:5]
     return tl, entries, parts
 
 
@@ -478,6 +485,11 @@ def tz_source_untouched_rule(ctx, chk, rule):
     tz_model(ctx, rule)
     f = ctx.ix.func("dateparser.timezone_parser:build_tz_offsets")
     muts = getattr(ctx, "tz_mutations", [])
+    errs = getattr(ctx, "tz_build_errors", [])
+    chk.ob(rule, "build_tz_offsets runs to completion over timezones.timezone_info_list", not errs,
+           "a rebuild of the table raises regex.error - %s: with the shipped cache intact nothing shows, but a missing or damaged cache makes "
+           "`import dateparser` fail, and keep failing, since the file is never rewritten" % (errs[0][1] if errs else ""),
+           key={"function": f.key, "construct": "table build raises"}, file="dateparser/timezones.py", function="timezone_info_list", line=None)
     chk.ob(rule, "build_tz_offsets leaves timezones.timezone_info_list as it found it", not muts,
            "%s removes keys from the source table while building: the first build is complete, a second build in the same process "
            "(and the cache it writes) lacks the entries that depended on them" % "; ".join("line %d `%s`" % m for m in muts[:3]),
@@ -558,28 +570,47 @@ def r2(ctx, chk):
         chk.ob(rule, "%s search regex == '|'.join(parts) (%d parts)" % (label, len(parts)), ok,
                "pattern or flags differ" if _is_regex_reduce(v) else "not a regex.compile reduce",
                key={"construct": "search regex " + label}, file=rel, function="-", line=None)
-    # _load_offsets builds the two regexes from the same parts list
-    lo = ctx.ix.func("dateparser.timezone_parser:_load_offsets")
-    t = " ".join(ast.unparse(lo.node).split())
-    import re as _re
-    m_ = _re.search(r"_tz_offsets = list\(build_tz_offsets\((\w+)\)\)", t)
-    ok = bool(m_) and ("_search_regex = re.compile('|'.join(%s))" % m_.group(1)) in t and \
-        ("_search_regex_ignorecase = re.compile('|'.join(%s), re.IGNORECASE)" % m_.group(1)) in t
-    if not ok:
-        raise AnalysisError(rule, "_load_offsets rebuild statements changed")
-    # ... and it is still the list the generator filled: the name is not rebound between the generator call and the two compiles
+    # _load_offsets builds the two regexes from the parts list the generator filled: same alternation, the second one case-insensitive
     from ..core.cfg import CFG
+    lo = ctx.ix.func("dateparser.timezone_parser:_load_offsets")
     g = CFG(lo.node)
-    pv = m_.group(1)
-    gen = [s_ for s_ in iter_own_stmts(lo.node.body) if isinstance(s_, ast.Assign) and "build_tz_offsets(%s)" % pv in ast.unparse(s_.value)]
-    comp = [s_ for s_ in iter_own_stmts(lo.node.body) if isinstance(s_, ast.Assign) and ast.unparse(s_.value).startswith("re.compile('|'.join(%s)" % pv)]
-    rd0 = g.reaching_defs(pv).get(next(iter(g.nodes_of(gen[0]))), set()) if gen else set()
-    for c_ in comp:
-        rd = g.reaching_defs(pv).get(next(iter(g.nodes_of(c_))), set())
-        chk.ob(rule, "_load_offsets line %d compiles the parts exactly as the generator appended them" % c_.lineno, bool(rd0) and rd == rd0,
-               "`%s` is rebound between build_tz_offsets(%s) and the compile (%s): the rebuilt search regex differs from the one the "
-               "shipped cache holds" % (pv, pv, "; ".join(" ".join(ast.unparse(g.nodes[d].stmt).split())[:60] for d in sorted(rd - rd0) if g.nodes[d].stmt is not None)),
-               key={"function": lo.key, "construct": "parts list rebound"}, file=lo.file, function=lo.qual, line=c_.lineno)
+    gen = [s_ for s_ in iter_own_stmts(lo.node.body) if isinstance(s_, ast.Assign) and isinstance(s_.value, ast.Call)
+           and any(isinstance(c_, ast.Call) and ast.unparse(c_.func) == "build_tz_offsets" and len(c_.args) == 1 and isinstance(c_.args[0], ast.Name)
+                   for c_ in ast.walk(s_.value))]
+    if len(gen) != 1:
+        raise AnalysisError(rule, "_load_offsets: the call of build_tz_offsets(<parts list>) was not found")
+    pv = [c_.args[0].id for c_ in ast.walk(gen[0].value) if isinstance(c_, ast.Call) and ast.unparse(c_.func) == "build_tz_offsets"][0]
+    rd0 = g.reaching_defs(pv).get(next(iter(g.nodes_of(gen[0]))), set())
+    comp = {}
+    for s_ in iter_own_stmts(lo.node.body):
+        if isinstance(s_, ast.Assign) and len(s_.targets) == 1 and isinstance(s_.targets[0], ast.Name) and s_.targets[0].id in ("_search_regex", "_search_regex_ignorecase") \
+                and isinstance(s_.value, ast.Call) and ast.unparse(s_.value.func) in ("re.compile", "regex.compile"):
+            comp[s_.targets[0].id] = s_
+    if set(comp) != {"_search_regex", "_search_regex_ignorecase"}:
+        raise AnalysisError(rule, "_load_offsets: the two re.compile statements of the rebuild were not found")
+    for name, s_ in sorted(comp.items()):
+        c_ = s_.value
+        pat_e = c_.args[0] if c_.args else None
+        fl_e = c_.args[1] if len(c_.args) > 1 else {k.arg: k.value for k in c_.keywords}.get("flags")
+        ptxt = " ".join(ast.unparse(pat_e).split()) if pat_e is not None else ""
+        from_parts = ptxt == "'|'.join(%s)" % pv
+        from_other = ptxt in ("_search_regex.pattern", "_search_regex_ignorecase.pattern") and ptxt.split(".")[0] != name
+        if not (from_parts or from_other):
+            raise AnalysisError(rule, "_load_offsets: %s is compiled from %s" % (name, ptxt))
+        flags = {x.strip().split(".")[-1] for x in (ast.unparse(fl_e) if fl_e is not None else "").split("|")} - {""}
+        want_i = name.endswith("ignorecase")
+        has_i = bool(flags & {"I", "IGNORECASE"})
+        chk.ob(rule, "_load_offsets compiles %s %s" % (name, "case-insensitively" if want_i else "case-sensitively"), has_i == want_i and not (flags - {"I", "IGNORECASE"}),
+               "`%s`: flags %s - a rebuilt cache then %s" % (" ".join(ast.unparse(s_).split())[:90], sorted(flags) or "none",
+                                                             "no longer admits lower-case abbreviations ('10:00 est' keeps its zone word and is not parsed)" if want_i
+                                                             else "treats every word spelled like an abbreviation as a zone"),
+               key={"function": lo.key, "construct": "compile flags of " + name}, file=lo.file, function=lo.qual, line=s_.lineno)
+        if from_parts:
+            rd = g.reaching_defs(pv).get(next(iter(g.nodes_of(s_))), set())
+            chk.ob(rule, "_load_offsets line %d compiles the parts exactly as the generator appended them" % s_.lineno, bool(rd0) and rd == rd0,
+                   "`%s` is rebound between build_tz_offsets(%s) and the compile (%s): the rebuilt search regex differs from the one the "
+                   "shipped cache holds" % (pv, pv, "; ".join(" ".join(ast.unparse(g.nodes[d].stmt).split())[:60] for d in sorted(rd - rd0) if g.nodes[d].stmt is not None)),
+                   key={"function": lo.key, "construct": "parts list rebound"}, file=lo.file, function=lo.qual, line=s_.lineno)
     chk.sample({"rule": rule, "entries": len(entries), "pickle_protocol": proto, "opcodes": nops, "hash": want_h,
                 "first": list(entries[0]), "mismatching_entries": bad})
     chk.assume("the compiled-code blob stored with each pickled regex corresponds to its (pattern, flags) pair (regex's own pickling)")
